@@ -151,24 +151,30 @@ def from_operation(model: Model, maps, opname: str, reskind: str, k1: str, k2: s
     table = maps.get({"S": "scalar", "V": "vector", "M": "matrix"}[reskind])
     if table is None:
         return ("refuse", f"FromOperation raises an internal compiler error for a {KNAME[reskind]} result")
-    # special cases, read from the source:  operation == X and v1.Type.IsK1() and v2.Type.IsK2()  ->  BinaryInstruction(OpCode.Y, .., a, b)
+    # special cases: fold the conditions of FromOperation under (operation, kind of v1, kind of v2); a feasible path that
+    # returns BinaryInstruction(OpCode.<member>, .., a, b) decides the opcode and the operand order
     pk = {"IsScalar": "S", "IsVector": "V", "IsMatrix": "M"}
-    for n in ast.walk(fo):
-        if not (isinstance(n, ast.If) and isinstance(n.test, ast.BoolOp) and isinstance(n.test.op, ast.And)):
+    kof = {"v1": k1, "v2": k2}
+
+    def atom(t):
+        if isinstance(t, ast.Compare) and len(t.ops) == 1 and unparse(t.left) == "operation" and isinstance(t.ops[0], (ast.Eq, ast.NotEq, ast.Is, ast.IsNot)):
+            eq = unparse(t.comparators[0]).split(".")[-1] == opname
+            return eq if isinstance(t.ops[0], (ast.Eq, ast.Is)) else (not eq)
+        if isinstance(t, ast.Compare) and len(t.ops) == 1 and unparse(t.left) == "operation" and isinstance(t.ops[0], (ast.In, ast.NotIn)) and isinstance(t.comparators[0], (ast.Tuple, ast.List, ast.Set)):
+            isin = opname in [unparse(e).split(".")[-1] for e in t.comparators[0].elts]
+            return isin if isinstance(t.ops[0], ast.In) else (not isin)
+        if isinstance(t, ast.Call) and isinstance(t.func, ast.Attribute) and t.func.attr in pk and unparse(t.func.value) in ("v1.Type", "v2.Type") and not t.args:
+            return kof[unparse(t.func.value)[:2]] == pk[t.func.attr]
+        return None
+
+    for evs, status in paths(fo.body, loop_iters=(1,), fold=make_fold(atom)):
+        if status != "return":
             continue
-        want_op = None
-        kinds = {}
-        for v in n.test.values:
-            if isinstance(v, ast.Compare) and unparse(v.left) == "operation" and isinstance(v.ops[0], ast.Eq):
-                want_op = unparse(v.comparators[0]).split(".")[-1]
-            elif isinstance(v, ast.Call) and isinstance(v.func, ast.Attribute) and v.func.attr in pk and unparse(v.func.value) in ("v1.Type", "v2.Type"):
-                kinds[unparse(v.func.value)[:2]] = pk[v.func.attr]
-        rets = [r.value for s in n.body for r in ast.walk(s) if isinstance(r, ast.Return) and isinstance(r.value, ast.Call) and last_attr(r.value) == "BinaryInstruction"]
-        if want_op == opname and kinds.get("v1") == k1 and kinds.get("v2") == k2 and rets:
-            call = rets[0]
-            order = [unparse(a) for a in call.args[2:4]]
-            ks = [{"v1": k1, "v2": k2}.get(o, "?") for o in order]
-            return (dotted(call.args[0]).split(".")[-1], ks)
+        rv = evs[-1].node.value
+        if isinstance(rv, ast.Call) and last_attr(rv) == "BinaryInstruction" and len(rv.args) >= 4 and (dotted(rv.args[0]) or "").split(".")[-2:-1] == ["OpCode"]:
+            order = [unparse(a_) for a_ in rv.args[2:4]]
+            ks = [kof.get(o, "?") for o in order]
+            return (dotted(rv.args[0]).split(".")[-1], ks)
     if opname not in table:
         return ("refuse", f"`mapping[operation]` has no row for {opname} when the result is a {KNAME[reskind]} (KeyError while lowering)")
     return (table[opname], [k1, k2])
